@@ -104,6 +104,10 @@ pub struct Stats {
     pub worlds_confirmed: u64,
     pub naf_calls: u64,
     pub normalized_fallbacks: u64,
+    pub cross_checked: u64,
+    pub cross_agree: u64,
+    pub cross_unknown: u64,
+    pub cross_disagree: u64,
 }
 
 /// bit layout of the positional (little-endian) view of symbolic scalars
@@ -133,6 +137,8 @@ pub struct RunCfg {
     pub final_timeout_ms: u32,
     pub n_worlds: usize,
     pub layout: Layout,
+    /// re-discharge every final obligation of a path with a second solver (thorough tier)
+    pub cross_check: bool,
 }
 impl Default for RunCfg {
     fn default() -> Self {
@@ -146,6 +152,7 @@ impl Default for RunCfg {
             final_timeout_ms: 10000,
             n_worlds: 2,
             layout: LAYOUT_WIDE,
+            cross_check: false,
         }
     }
 }
@@ -191,6 +198,9 @@ pub struct Ctx {
     pub adv_atoms: Vec<u32>,
     /// incremented whenever a symbolic scalar is given its positional encoding (= a NAF is being computed)
     pub epoch: u64,
+    pub in_obligation: bool,
+    pub cross_defs: String,
+    pub cross_queries: Vec<(String, bool)>,
 }
 
 thread_local! {
@@ -249,6 +259,9 @@ pub fn reset(cfg: RunCfg) {
             dense_ctr: 0,
             adv_atoms: vec![],
             epoch: 0,
+            in_obligation: false,
+            cross_defs: String::new(),
+            cross_queries: vec![],
             cfg,
         });
         for w in 0..ctx.cfg.n_worlds {
@@ -630,7 +643,10 @@ impl Ctx {
             self.fail(what, det, false);
             return false;
         }
-        match self.z3_valid_eq(a, b, self.cfg.final_timeout_ms) {
+        self.in_obligation = true;
+        let verdict = self.z3_valid_eq(a, b, self.cfg.final_timeout_ms);
+        self.in_obligation = false;
+        match verdict {
             Some(true) => {
                 self.record("ID", what, true, String::new());
                 true
@@ -900,6 +916,9 @@ impl Ctx {
 
     /// End of path: the worlds must be models of the whole path condition (solver-confirmed).
     pub fn confirm_path(&mut self) -> bool {
+        if self.cfg.cross_check {
+            self.cross_check_path();
+        }
         let t0 = Instant::now();
         let ok = self.z3_confirm_worlds();
         self.stats.z3_ms += t0.elapsed().as_secs_f64() * 1000.0;
